@@ -186,6 +186,15 @@ pub fn mvp_bases() -> Vec<(String, Vec<u8>)> {
             "neutral:multi-value-only".into(),
             wgen::stateful::assemble(r#"(module (func $two (export "two") (export "two2") (result i32 i32) (i32.const 1) (i32.const 2)) (func (export "use") (result i32) (call $two) (i32.add)))"#).unwrap(),
         ),
+        (
+            // needs reference types only; the ref.func target is declared by an ordinary active segment of a live table
+            "neutral:reference-types-only:target-declared-by-active-segment".into(),
+            wgen::stateful::assemble(
+                r#"(module (type $v (func)) (table 2 funcref) (func $f) (func $g) (elem (i32.const 0) func $f $g)
+                 (func (export "rf") (result i32) (ref.is_null (ref.func $f))) (func (export "ci") (call_indirect (type $v) (i32.const 0))) (func (export "c") (call $g)))"#,
+            )
+            .unwrap(),
+        ),
         ("mvp:empty".into(), b"\0asm\x01\0\0\0".to_vec()),
         (
             "mvp:one-of-everything".into(),
